@@ -366,8 +366,10 @@ impl<'a> Gen<'a> {
                 Step::new("u.parse").i("d", d).i("f", f).i("r", r).s("s", &txt)
             }
             8 => {
-                let (t, k) = scalar(self.rng, false);
-                Step::new("u.from_prim").i("d", d).i("t", t).i("k", k)
+                let f = self.rng.below(8) as i128;
+                let (t, k) = scalar(self.rng, f == 1 || f == 2);
+                let k = if f == 4 { (self.rng.next_u64() >> self.rng.below(12)) as i128 } else { k };
+                Step::new("u.from_prim").i("d", d).i("f", f).i("t", t).i("k", k)
             }
             9 => {
                 let bits = match self.rng.below(6) {
@@ -448,8 +450,10 @@ impl<'a> Gen<'a> {
                 Step::new("i.parse").i("d", d).i("f", f).i("r", r).s("s", &txt)
             }
             10 => {
+                let f = self.rng.below(8) as i128;
                 let (t, k) = scalar(self.rng, true);
-                Step::new("i.from_prim").i("d", d).i("t", t).i("k", k)
+                let k = if f == 3 { (self.rng.next_u64() >> self.rng.below(12)) as i128 } else { k };
+                Step::new("i.from_prim").i("d", d).i("f", f).i("t", t).i("k", k)
             }
             11 => {
                 let bits = match self.rng.below(6) {
@@ -597,7 +601,7 @@ impl<'a> Gen<'a> {
                         Step::new(&format!("{pre}.to_radix")).i("a", a).i("f", self.rng.below(2) as i128).i("r", r)
                     }
                     4 => Step::new(&format!("{pre}.to_bytes")).i("a", a).i("f", self.rng.below(if u { 4 } else { 6 }) as i128),
-                    5 => Step::new(&format!("{pre}.to_prim")).i("a", a).i("t", self.rng.below(16) as i128),
+                    5 => Step::new(&format!("{pre}.to_prim")).i("a", a).i("t", self.rng.below(28) as i128),
                     6 => Step::new(&format!("{pre}.to_digits")).i("a", a).i("f", self.rng.below(2) as i128),
                     7 => Step::new(&format!("{pre}.sum")).i("d", d).i("k", self.rng.below(64) as i128).i("f", self.rng.below(4) as i128),
                     _ => Step::new(&format!("{pre}.query")).i("a", a).i("b", b).i("f", self.rng.below(11) as i128).i("k", self.rng.below(400) as i128),
